@@ -1720,6 +1720,9 @@ def replay(ctx, case):
         cls = classify_case(env, case)
         obs = run_impl(env, case)
         bad = oracle(env, case, obs, cls)
+        open_sigs = {k["signature"] for k in vlib.load_known() if k.get("property") == PROP and k.get("status") == "open"}
+        known = [b for b in bad if b[0] in open_sigs]
+        bad = [b for b in bad if b[0] not in open_sigs]
         if bad:
             return True, {"oracle": bad, "impl": short_obs(obs)}
         lit = c_case(case, obs, cls)
@@ -1727,6 +1730,6 @@ def replay(ctx, case):
         if idx or obs["anomalies"]:
             model = vlib.eval_model(ctx, IMPORTS, "model_case (%s)" % lit)
             return True, {"mismatch": True, "impl": short_obs(obs), "model": model[-2000:]}
-        return False, {"impl": short_obs(obs)}
+        return False, {"impl": short_obs(obs), "known_finding_reproduced": known}
     finally:
         env.stop()
